@@ -723,23 +723,29 @@ class IntervalTier(textgrid_tier.TextgridTier):
         Returns:
             The modified version of the current tier
         """
-        cumulativeAdjustAmount = 0
         newEntryList = []
+        lastSourceEnd = None
+        lastNewEnd = None
         allIntervals = [self.entries, targetTier.entries]
         for sourceInterval, targetInterval in utils.safeZip(allIntervals, True):
-            # sourceInterval.start - lastFromEnd -> was this interval and the
-            # last one adjacent?
-            newStart = sourceInterval.start + cumulativeAdjustAmount
+            # Each interval starts where the previous new interval ended plus
+            # the original gap between the two, so that intervals that were
+            # adjacent stay exactly adjacent (no rounding-induced overlap)
+            if lastNewEnd is None:
+                newStart = sourceInterval.start
+            else:
+                newStart = lastNewEnd + (sourceInterval.start - lastSourceEnd)
 
             currIntervalDuration = sourceInterval.end - sourceInterval.start
             if filterFunc is None or filterFunc(sourceInterval.label):
                 newIntervalDuration = targetInterval.end - targetInterval.start
-                cumulativeAdjustAmount += newIntervalDuration - currIntervalDuration
                 newEnd = newStart + newIntervalDuration
             else:
                 newEnd = newStart + currIntervalDuration
 
             newEntryList.append(Interval(newStart, newEnd, sourceInterval.label))
+            lastSourceEnd = sourceInterval.end
+            lastNewEnd = newEnd
 
         newMin = self.minTimestamp
         cumulativeDifference = 0.0
